@@ -98,7 +98,8 @@ def _len_choice(rng, lo, hi, mode):
         return lo
     if mode == 'max':
         return hi
-    return rng.choice([lo, hi, rng.randint(lo, hi), rng.randint(lo, hi)])
+    # (just below the maximum matters: a multi-character separator then straddles the end of the maximum-length window)
+    return rng.choice([lo, hi, rng.randint(lo, hi), rng.randint(lo, hi), max(lo, hi - rng.randint(1, 5))])
 
 
 def gen_date(rng, mode='any'):
@@ -217,7 +218,13 @@ def gen_decimal_value(rng, ai, mode):
     return value, text, tags
 
 
-def gen_date_value(rng, ai, mode):
+def _edge(rng, hi):
+    """hour / minute / second values: the ends, anything, and the round values 10, 20 ... (a trailing zero that
+    belongs to the value, next to zeros that are padding - text-level trimming confuses the two)"""
+    return rng.choice([0, hi, rng.randint(0, hi), 10 * rng.randint(1, hi // 10), 10 * rng.randint(1, hi // 10)])
+
+
+def _gen_date_value(rng, ai, mode):
     fmt = ai.format
     plain = 'plain' if mode == 'plain' else 'any'
     d = gen_date(rng, plain)
@@ -225,7 +232,7 @@ def gen_date_value(rng, ai, mode):
     if fmt == 'N6':
         return d, ymd(d), tags
     if fmt == 'N10':
-        h, m = rng.choice([0, 23, rng.randint(0, 23)]), rng.choice([0, 59, rng.randint(0, 59)])
+        h, m = _edge(rng, 23), _edge(rng, 59)
         if mode == 'plain':
             h, m = rng.randint(1, 23), rng.randint(1, 59)
         return datetime.datetime(d.year, d.month, d.day, h, m), ymd(d) + '%02d%02d' % (h, m), tags | {'datetime'}
@@ -237,7 +244,7 @@ def gen_date_value(rng, ai, mode):
     if fmt == 'N6[+N4]':
         if mode == 'min' or (mode not in ('max',) and rng.random() < 0.4):
             return d, ymd(d), tags | {'optional-absent'}
-        h, m = rng.choice([0, 23, rng.randint(0, 23)]), rng.choice([0, 59, rng.randint(0, 59)])
+        h, m = _edge(rng, 23), _edge(rng, 59)
         if mode == 'plain':
             h, m = rng.randint(1, 23), rng.randint(1, 59)
         if (h, m) == (0, 0):
@@ -246,24 +253,34 @@ def gen_date_value(rng, ai, mode):
             tags.add('minute-00')
         return datetime.datetime(d.year, d.month, d.day, h, m), ymd(d) + '%02d%02d' % (h, m), tags | {'datetime', 'optional-present'}
     if fmt == 'N8[+N..4]':
-        h = rng.choice([0, 23, rng.randint(0, 23)])
+        h = _edge(rng, 23)
         if mode == 'plain':
             h = rng.randint(1, 23)
         k = 0 if mode == 'min' else 2 if mode == 'max' else rng.randrange(3)
         if k == 0:
             return datetime.datetime(d.year, d.month, d.day, h), ymd(d) + '%02d' % h, tags | {'datetime', 'optional-absent'}
-        m = rng.choice([0, 59, rng.randint(0, 59)]) if mode != 'plain' else rng.randint(1, 59)
+        m = _edge(rng, 59) if mode != 'plain' else rng.randint(1, 59)
         if k == 1:
             if m == 0:
                 tags.add('minute-00')
             return (datetime.datetime(d.year, d.month, d.day, h, m), ymd(d) + '%02d%02d' % (h, m),
                     tags | {'datetime', 'optional-present'})
-        s = rng.choice([0, 59, rng.randint(0, 59)]) if mode != 'plain' else rng.randint(1, 59)
+        s = _edge(rng, 59) if mode != 'plain' else rng.randint(1, 59)
         if s == 0:
             tags.add('second-00')
         return (datetime.datetime(d.year, d.month, d.day, h, m, s), ymd(d) + '%02d%02d%02d' % (h, m, s),
                 tags | {'datetime', 'seconds', 'optional-present'})
     return None, None, {'unknown-date-format'}
+
+
+def gen_date_value(rng, ai, mode):
+    v, text, tags = _gen_date_value(rng, ai, mode)
+    if isinstance(v, datetime.datetime):
+        # a round value (10, 20 ...) in the last transmitted time field: its trailing zero is part of the value
+        t = text[6:] if len(text) > 6 else ''
+        if len(t) >= 2 and t[-1] == '0' and t[-2] != '0':
+            tags = set(tags) | {'round-time-field'}
+    return v, text, tags
 
 
 def pad(ai, text):
